@@ -155,6 +155,8 @@ def run(ctx):
             settings = [(3, 1, True, "load")] if q else [(3, 1, True, "load"), (1, 2, False, "load")]
         if prob in ("demoor", "hendrix") and q:
             settings = [(2, 1, True, "restore")]
+        if q and prob == "forest" and tag in ("rvi", "pvi", "pi-reset"):
+            settings = settings + [(1, 2, False, "load")]  # load_checkpoint() route, at odd k only (si >= 1)
         if N >= 400:
             raise RuntimeError("instance %s/%s does not converge; pick another" % (prob, tag))
         for k in range(1, N + 1):  # k = N: already converged, recorded as an outcome class only
